@@ -70,3 +70,36 @@ def ext_form_children_leak(disc, case) -> bool:
     tags, prons = _extension_form_children(case)
     pool = [_k(x) for x in tags + prons]
     return all(_k(x) in pool for x in extras)
+
+
+def ext_form_children_leak_dicts(disc, case) -> bool:
+    """Same root cause as ext_form_children_leak, for comparisons of loaded
+    documents (tags/pronunciations rendered as canonical dicts)."""
+    from .canon import canon
+    exp, got = disc.expected, disc.got
+    if not isinstance(exp, list) or not isinstance(got, list):
+        return False
+    exp_k = [_k(x) for x in exp]
+    extras = []
+    for g in got:
+        k = _k(g)
+        if k in exp_k:
+            exp_k.remove(k)
+        else:
+            extras.append(g)
+    if exp_k or not extras:
+        return False
+    pool = []
+    for res in _resources(case):
+        for lex in res['lexicons']:
+            if not lex.get('extends'):
+                continue
+            for e in lex.get('entries', []):
+                if not e.get('external'):
+                    continue
+                fs = ([e['lemma']] if e.get('lemma') else []) + \
+                    [f for f in e.get('forms', []) if f.get('external')]
+                for f in fs:
+                    for t in f.get('tags', []) + f.get('pronunciations', []):
+                        pool.append(_k(canon(t)))
+    return all(_k(x) in pool for x in extras)
